@@ -950,6 +950,10 @@ class Engine:
 
                 if process_time <= self.global_time:
 
+                    if force_complete and process_time >= end_time:
+                        # already complete: nothing is left to simulate
+                        continue
+
                     # get the time step
                     store, states = self._process_state(path)
                     # a process whose interval did not fit into an earlier
